@@ -34,6 +34,7 @@
 #include <event2/buffer.h>
 #include <event2/bufferevent.h>
 #include <event2/util.h>
+#include <event2/watch.h>
 
 int __real_clock_gettime(clockid_t, struct timespec *);
 ssize_t __real_write(int, const void *, size_t);
@@ -65,7 +66,9 @@ struct kase {
 	struct event *hour_ev, *started_ev, *poke_ev;
 	int poke[2];
 	atomic_int hour_fired, running, stop;
-	atomic_long gen;
+	atomic_long gen, iters;
+	atomic_int nonblock_guard;
+	struct evwatch *iter_watch;
 	pthread_mutex_t brk_mu;
 	struct bufferevent *bevA, *bevB, *pairA, *pairB;
 	int bsp[2];
@@ -76,11 +79,32 @@ struct kase {
 	atomic_int suspect;
 	char suspect_what[160];
 	pthread_mutex_t res_mu;
+	atomic_long n_quiet_checks, n_quiet_iters_max;
 	atomic_long n_tickets, n_serviced_waited, n_dels, n_dels_during_cb, n_breaks, n_bevwrites, n_chaos, n_cb_slow, n_del_cancel;
 	vh_rng cb_rng;
 };
 static struct kase K;
 static int use_lockmon;
+/* hang watchdog: if no worker operation and no callback completes for HANG_S seconds the process gives up with
+ * exit code 2 (inconclusive for the driver; sanitizer reports already printed still count) instead of sitting
+ * in the driver's much longer shard timeout */
+#define HANG_S 120
+static atomic_long heartbeat;
+static void *hang_watch(void *a)
+{
+	long last = -1; int idle = 0;
+	(void)a;
+	for (;;) {
+		sleep(1);
+		if (atomic_load(&heartbeat) != last) { last = atomic_load(&heartbeat); idle = 0; continue; }
+		if (++idle >= HANG_S) {
+			fprintf(stderr, "h_thread: no operation or callback completed for %d s in case %ld (a thread is stuck inside a library call?) - giving up\n", HANG_S, K.idx);
+			fflush(stdout);
+			_exit(2);
+		}
+	}
+	return NULL;
+}
 
 static int64_t now_ms(void) { struct timespec ts; __real_clock_gettime(CLOCK_MONOTONIC, &ts); return (int64_t)ts.tv_sec * 1000 + ts.tv_nsec / 1000000; }
 static void set_suspect(const char *fmt, ...)
@@ -111,6 +135,7 @@ static int wait_ge(atomic_long *v, long want, const char *what)
 	int spins = 0;
 	while (atomic_load(v) < want) {
 		if (spins++ < 50) sched_yield(); else usleep(200);
+		if ((spins & 1023) == 0) atomic_fetch_add(&heartbeat, 1);
 		if ((spins & 63) == 0 && now_ms() - t0 > WATCHDOG_MS) {
 			set_suspect("%s not acted on within %d ms while the loop sleeps on its one-hour timer", what, WATCHDOG_MS);
 			poke_loop();
@@ -121,6 +146,36 @@ static int wait_ge(atomic_long *v, long want, const char *what)
 		}
 	}
 	return 1;
+}
+
+/* Loop-iteration monitor: a prepare watcher counts the iterations of the loop.  After a cross-thread wake-up has
+ * been serviced and nothing else is posted, the loop must go back to blocking: over a quiet period the count may
+ * grow by a handful of iterations, never by hundreds (a notify fd that stays readable makes the loop spin).  The
+ * verdict is on the iteration count; the sleep only has to be long enough for a spinning loop to show. */
+#define QUIET_MS 30
+#define QUIET_MAX_ITERS 50
+static void iter_cb(struct evwatch *w, const struct evwatch_prepare_cb_info *info, void *arg)
+{
+	(void)w; (void)info; (void)arg;
+	if (atomic_fetch_add(&K.iters, 1) > 200000 && atomic_load(&K.nonblock_guard)) {
+		/* event_base_loop(EVLOOP_NONBLOCK) of the final check does not come back */
+		atomic_store(&K.nonblock_guard, 2);
+		event_base_loopbreak(K.base);
+	}
+}
+static void viol(const char *key, const char *fmt, ...);
+static void quiet_check(const char *after)
+{
+	long c0, c1;
+	struct timespec ts = { 0, QUIET_MS * 1000000L };
+	c0 = atomic_load(&K.iters);
+	nanosleep(&ts, NULL);
+	c1 = atomic_load(&K.iters);
+	atomic_fetch_add(&K.n_quiet_checks, 1);
+	if (c1 - c0 > atomic_load(&K.n_quiet_iters_max)) atomic_store(&K.n_quiet_iters_max, c1 - c0);
+	if (c1 - c0 > QUIET_MAX_ITERS)
+		viol("C09:loop-spins-after-wakeup", "%s: nothing was posted for %d ms but the loop made %ld iterations instead of blocking (backend %s, %s notification)",
+		    after, QUIET_MS, c1 - c0, K.method == 0 ? "epoll" : K.method == 1 ? "poll" : "select", K.pipe_notify ? "pipe" : "eventfd");
 }
 
 /* ------------------------------------------------------------------ callbacks (loop thread) */
@@ -138,6 +193,7 @@ static void slot_cb(evutil_socket_t fd, short what, void *arg)
 		viol("C09:callback-after-del", "slot %d (%s): callback started after event_del() had returned in the owning thread and before it re-armed the event", s->idx, kind_name[s->kind]);
 	t = atomic_load(&s->issued);
 	atomic_fetch_add(&s->cb_count, 1);
+	atomic_fetch_add(&heartbeat, 1);
 	maybe_slow();
 	if (atomic_load(&s->serviced) < t) atomic_store(&s->serviced, t);
 	atomic_store(&s->in_cb, 0);
@@ -188,7 +244,7 @@ static void issue_ticket(struct slot *s, vh_rng *r, int wait)
 	}
 	if (wait) {
 		snprintf(what, sizeof(what), "cross-thread %s (slot %d, ticket %ld)", kind_name[s->kind], s->idx, t);
-		if (wait_ge(&s->serviced, t, what)) atomic_fetch_add(&K.n_serviced_waited, 1);
+		if (wait_ge(&s->serviced, t, what)) { atomic_fetch_add(&K.n_serviced_waited, 1); if (K.solo && vh_chance(r, 1, 6)) quiet_check(what); }
 	}
 }
 static void do_del(struct slot *s, int how)
@@ -230,7 +286,8 @@ static void do_bevwrite(vh_rng *r, int wait)
 	if (pair) { target = atomic_fetch_add(&K.psent, (long)n) + (long)n; if (bufferevent_write(K.pairA, wbuf, n) != 0) viol("C09:api-failed", "bufferevent_write failed"); }
 	else { target = atomic_fetch_add(&K.sent, (long)n) + (long)n; if (bufferevent_write(K.bevA, wbuf, n) != 0) viol("C09:api-failed", "bufferevent_write failed"); }
 	atomic_fetch_add(&K.n_bevwrites, 1);
-	if (wait) (void)wait_ge(pair ? &K.preceived : &K.received, target, pair ? "cross-thread bufferevent_write (pair)" : "cross-thread bufferevent_write (socket)");
+	if (wait && wait_ge(pair ? &K.preceived : &K.received, target, pair ? "cross-thread bufferevent_write (pair)" : "cross-thread bufferevent_write (socket)") && K.solo && vh_chance(r, 1, 6))
+		quiet_check("cross-thread bufferevent_write serviced");
 }
 static void do_bevtoggle(vh_rng *r)
 {
@@ -329,6 +386,7 @@ static void *worker_main(void *a)
 			break; }
 		default: do_query(r); break;
 		}
+		atomic_fetch_add(&heartbeat, 1);
 		if (!K.solo && vh_chance(r, 1, 16)) usleep((useconds_t)vh_below(r, 400));
 	}
 	return NULL;
@@ -341,7 +399,7 @@ static void plan_case(long idx, vh_rng *r)
 	memset(&K, 0, sizeof(K));
 	K.idx = idx;
 	K.solo = vh_chance(r, 2, 5);
-	K.method = vh_opt.thorough ? (int)vh_below(r, 3) : (vh_chance(r, 1, 4) ? (int)vh_range(r, 1, 2) : 0);
+	K.method = vh_chance(r, 1, 2) ? (int)vh_range(r, 1, 2) : 0;
 	K.pipe_notify = vh_chance(r, 1, 5);
 	K.bev_defer = vh_chance(r, 1, 2);
 	if (K.solo) {
@@ -382,6 +440,7 @@ static int run_case(long idx, vh_rng rng)
 	sf_reset();
 	if (!K.base) { fprintf(stderr, "h_thread: no base\n"); exit(2); }
 	event_base_priority_init(K.base, 2);
+	K.iter_watch = evwatch_prepare_new(K.base, iter_cb, NULL);
 	evutil_socketpair(AF_UNIX, SOCK_STREAM, 0, K.poke); evutil_make_socket_nonblocking(K.poke[0]); evutil_make_socket_nonblocking(K.poke[1]);
 	K.poke_ev = event_new(K.base, K.poke[0], EV_READ | EV_PERSIST, poke_cb, NULL); event_add(K.poke_ev, NULL);
 	K.hour_ev = event_new(K.base, -1, 0, hour_cb, NULL); event_add(K.hour_ev, &hour);
@@ -443,6 +502,12 @@ static int run_case(long idx, vh_rng rng)
 		(void)wait_ge(&K.received, atomic_load(&K.sent), "bytes written with bufferevent_write (socket) from other threads");
 		if (K.pairA) (void)wait_ge(&K.preceived, atomic_load(&K.psent), "bytes written with bufferevent_write (pair) from other threads");
 	}
+	/* everything posted has been acted on: silence the free-running chaos events, then the loop must block again */
+	if (!atomic_load(&K.suspect)) {
+		for (i = 0; i < K.nslots; i++) if (K.slot[i].chaos) event_del(K.slot[i].ev);
+		{ struct timespec ts = { 0, 5000000L }; nanosleep(&ts, NULL); }
+		quiet_check("end of case (all tickets resolved, chaos events deleted)");
+	}
 	/* free two bufferevents from this (non-loop) thread while the loop is still running */
 	bufferevent_free(K.bevA);
 	if (K.pairA) bufferevent_free(K.pairA);
@@ -456,6 +521,17 @@ static int run_case(long idx, vh_rng rng)
 			usleep(500);
 			if (now_ms() - t0 > WATCHDOG_MS) { if (!atomic_load(&K.suspect)) set_suspect("final cross-thread event_base_loopbreak not acted on"); poke_loop(); t0 = now_ms(); }
 		}
+	}
+	/* the loop thread is gone; after all those cross-thread wake-ups a non-blocking loop must still come back */
+	if (!atomic_load(&K.suspect)) {
+		atomic_store(&K.iters, 0);
+		atomic_store(&K.nonblock_guard, 1);
+		event_base_loop(K.base, EVLOOP_NONBLOCK);
+		if (atomic_load(&K.nonblock_guard) == 2)
+			viol("C09:nonblock-loop-never-returns", "event_base_loop(EVLOOP_NONBLOCK) after cross-thread wake-ups was still iterating after 200000 iterations with nothing posted (backend %s, %s notification)",
+			    K.method == 0 ? "epoll" : K.method == 1 ? "poll" : "select", K.pipe_notify ? "pipe" : "eventfd");
+		atomic_store(&K.nonblock_guard, 0);
+		vh_stat("nonblock_loop_returned_checks");
 	}
 	/* conservation */
 	for (i = 0; i < K.nslots; i++) {
@@ -507,6 +583,8 @@ static int run_case(long idx, vh_rng rng)
 	vh_stat_add("chaos_ops", atomic_load(&K.n_chaos));
 	vh_stat_add("slow_callbacks", atomic_load(&K.n_cb_slow));
 	vh_stat_add("loop_incarnations", atomic_load(&K.gen));
+	vh_stat_add("quiet_period_checks", atomic_load(&K.n_quiet_checks));
+	if (atomic_load(&K.n_quiet_iters_max) > 10) vh_stat("cases_with_quiet_period_over_10_iterations");
 	vh_stat(K.solo ? "cases_solo" : "cases_storm");
 	vh_stat(K.method == 0 ? "cases_epoll" : K.method == 1 ? "cases_poll" : "cases_select");
 	if (K.pipe_notify) vh_stat("cases_pipe_notify");
@@ -530,8 +608,10 @@ int main(int argc, char **argv)
 	else evthread_use_pthreads();
 	event_set_log_callback(log_cb);
 	memset(wbuf, 'w', sizeof(wbuf));
+	{ pthread_t wd; pthread_create(&wd, NULL, hang_watch, NULL); }
 	while (vh_next_case(&idx, &rng)) {
 		int s = run_case(idx, rng);
+		atomic_fetch_add(&heartbeat, 1);
 		vh_stat("cases");
 		if (s) {
 			char first[160];
